@@ -137,6 +137,8 @@ func (s *restServer) alive() bool {
 	return s.cmd.ProcessState == nil && s.cmd.Process.Signal(syscall.Signal(0)) == nil
 }
 
+var freshSem = make(chan struct{}, 16)
+
 var sharedClient = &http.Client{
 	Timeout:   20 * time.Second,
 	Transport: &http.Transport{MaxConnsPerHost: 24, MaxIdleConnsPerHost: 24, IdleConnTimeout: 20 * time.Second, DisableCompression: true},
@@ -154,6 +156,9 @@ type httpResult struct {
 func (s *restServer) do(method, path string, body []byte, fresh bool, timeout time.Duration) httpResult {
 	cl := sharedClient
 	if fresh {
+		// the server admits 50 connections per address: 24 pooled + at most 16 fresh ones at a time
+		freshSem <- struct{}{}
+		defer func() { <-freshSem }()
 		cl = &http.Client{Timeout: timeout, Transport: &http.Transport{DisableKeepAlives: true, DisableCompression: true}}
 	}
 	ctx, cancel := context.WithTimeout(context.Background(), timeout)
